@@ -83,6 +83,17 @@ fn check_deadlock(
     // Swap link idxs blocked back into train disp moved
     train_disps[train_idx_moved.idx()].swap_link_idxs_blocking(&mut link_idxs_blocked);
 
+    #[cfg(feature = "verif_hooks")]
+    if errors.len() > 0 {
+        crate::verif_hooks::observe_dispatch(&crate::verif_hooks::DispatchSnapshot {
+            phase: crate::verif_hooks::DispatchPhase::Failed,
+            train_idx: train_idx_moved.idx(),
+            link_disp_auths: &[],
+            links_blocked,
+            train_disps,
+        });
+    }
+
     if errors.len() > 0 {
         Err(errors)
     } else {
